@@ -409,6 +409,10 @@ theorem beta_init_reference (i0 Ω0 e0 ω0 M0 n0 bstar : ℝ) (he : e0 ^ 2 < 1) 
     simp only [List.getD_cons_succ, List.getD_cons_zero, List.cons_append, List.nil_append, hE1, hT1, hnc]
 
 
+/-- the Kepler piece of `propagate` is the translated loop started at `U` with the source's ten passes — the reference's limit
+(`ktr <= 10`); what leaving it through `break` guarantees is `beta_kepler_residual` -/
+theorem beta_kepler_fuel (U axN ayN : ℝ) : sgp4Kepler U axN ayN = [(keplerLoop axN U ayN 10 U).1] := rfl
+
 /-! hypotheses are satisfiable: ISS-like values (a0'' = 1.0626 Earth radii, s = 1.01222, e0 = 0.0007) -/
 example : ((1.0626 : ℝ) * 0.0007 * (1 / (1.0626 - 1.01222))) ^ 2 < 1 := by norm_num
 example : ((0.0007 : ℝ)) ^ 2 < 1 := by norm_num
